@@ -153,16 +153,26 @@ def seq_jobs(tier, rng):
                 jobs.append((sub, s, 1))
             elif len(s) > 2:
                 jobs.append((sub, s, rng.randrange(1, len(s))))
-    jobs = [j + (False,) for j in jobs]
+    jobs = [j + (False, None) for j in jobs]
     # the destination maildir on another device (renameat fails with EXDEV: the message is copied and the original removed)
-    exdev = [j[:3] + (True,) for j in jobs if 'moveA' in j[1] and 2 <= len(j[1]) <= 3]
-    return jobs + (rng.sample(exdev, 40) if tier == 'quick' else exdev)
+    exdev = [j[:3] + (True, None) for j in jobs if 'moveA' in j[1] and 2 <= len(j[1]) <= 3]
+    # `break` anywhere in an action list (C03_eval_refines_spec_wide): the first `split` actions stand in a nested block, in ONE rule with a
+    # `break` before, between or after them (position brk, 0 .. split); the block is left, what was collected stays pending, the next rule
+    # of the enclosing block matches and everything is performed in the order listed
+    brk = []
+    for sub, s, split, _, _ in jobs:
+        if split is not None and s[-1] != 'discard':
+            for pos in range(split + 1):
+                brk.append((sub, s, split, False, pos))
+    return jobs + (rng.sample(exdev, 40) if tier == 'quick' else exdev) + (rng.sample(brk, 80) if tier == 'quick' else brk)
 
 
-def dest_request(sub, seq, split, exdev=False):
+def dest_request(sub, seq, split, exdev=False, brk=None):
     """`S dest` request (Spec.destOK, Spec.destPath) for the entries the sequence puts on the match list."""
     codes = []
     for j, a in enumerate(seq):
+        if brk is not None and j == brk:
+            codes.append(NEUTRAL)           # the BREAK entry is in the list while the actions behind it are appended
         if split is not None and j == split:
             codes.append(NEUTRAL)
         codes.append(PACTS[a][1] or NEUTRAL)
@@ -172,12 +182,17 @@ def dest_request(sub, seq, split, exdev=False):
                     [vlib.hexs(c) for c in codes])
 
 
-def seq_config(sub, seq, split):
+def seq_config(sub, seq, split, brk=None):
     cond = 'new' if sub == 'new' else '! new'
     # F21: a message taken from new to cur of the walked maildir is met again when cur is read: every rule is restricted to the
     # subdirectory the subject starts in (as C09 does)
     lines = ['\tmatch header "X-Id" /^99$/ move "%s/dstB"' % R]
-    if split is None:
+    if brk is not None:
+        inner = [PACTS[a][0] for a in seq[:split]]
+        inner.insert(brk, 'break')
+        lines.append('\tmatch %s {\n\t\tmatch %s %s\n\t}' % (cond, cond, ' '.join(inner)))
+        lines.append('\tmatch %s %s' % (cond, ' '.join(PACTS[a][0] for a in seq[split:])))
+    elif split is None:
         lines.append('\tmatch %s %s' % (cond, ' '.join(PACTS[a][0] for a in seq)))
     else:
         lines.append('\tmatch %s %s pass' % (cond, ' '.join(PACTS[a][0] for a in seq[:split])))
@@ -187,13 +202,13 @@ def seq_config(sub, seq, split):
     return 'maildir "%s/src" {\n%s\n}\n' % (R, '\n'.join(lines))
 
 
-def seq_spec(sub, seq, split, exdev=False):
+def seq_spec(sub, seq, split, exdev=False, brk=None):
     tree = {}
     for d in ('src', 'dstA', 'dstB'):
         tree.update(proc.maildir_tree(d, {}))
     tree['src/%s/%s' % (sub, SUBJECT[sub])] = ws.msg(1)
     tree['src/%s/%s' % BYSTANDER[sub]] = ws.msg(2)
-    return ws.Spec('seq', seq_config(sub, seq, split), PPATS, tree=tree, devmap=('%s/dstA' % R,) if exdev else ())
+    return ws.Spec('seq', seq_config(sub, seq, split, brk), PPATS, tree=tree, devmap=('%s/dstA' % R,) if exdev else ())
 
 
 def touched(r, basename, names=MUTATING):
@@ -318,14 +333,14 @@ def sequence_stage(rep, tools, W, rng):
         todo.append((j, vlib.unhex(path).decode('latin-1')))
 
     def one(item):
-        (sub, seq, split, exdev), destpath = item
-        spec = seq_spec(sub, seq, split, exdev)
+        (sub, seq, split, exdev, brk), destpath = item
+        spec = seq_spec(sub, seq, split, exdev, brk)
         scen = spec.build(tools)
         try:
             r = scen.run()
             probs = judge_seq(sub, seq, destpath, scen, r, exdev)
             req, tr, notes = W.request(scen, spec.pats, r)
-            return {'sub': sub, 'seq': list(seq), 'split': split, 'exdev': exdev, 'problems': probs, 'req': req, 'scen': scen, 'r': r,
+            return {'sub': sub, 'seq': list(seq), 'split': split, 'exdev': exdev, 'brk': brk, 'problems': probs, 'req': req, 'scen': scen, 'r': r,
                     'config': scen.config.replace(scen.root, R), 'documented_place': destpath}
         finally:
             scen.cleanup()
@@ -334,14 +349,16 @@ def sequence_stage(rep, tools, W, rng):
         results = list(ex.map(one, todo))
     verdicts = W.verdict([x['req'] for x in results])
     stats = {'runs': len(results), 'outside_destOK_not_generated': outside, 'failing': 0, 'nonconforming': 0,
-             'by_length': {}, 'with_pass': sum(1 for x in results if x['split'] is not None),
+             'by_length': {}, 'with_pass': sum(1 for x in results if x['split'] is not None and x['brk'] is None),
+             'with_break_in_nested_block': sum(1 for x in results if x['brk'] is not None),
              'across_devices': sum(1 for x in results if x['exdev'])}
     corr = []
     nrep = 0
     for x, v in zip(results, verdicts):
         stats['by_length'][len(x['seq'])] = stats['by_length'].get(len(x['seq']), 0) + 1
         desc = {'harness': 'process (real binary under the shim)', 'family': 'sequence', 'source_subdir': x['sub'], 'actions': x['seq'],
-                'pass_after': x['split'], 'dstA_on_other_device': x['exdev'], 'config': x['config'], 'documented_place': x['documented_place']}
+                'pass_after': x['split'], 'break_at': x['brk'], 'dstA_on_other_device': x['exdev'], 'config': x['config'],
+                'documented_place': x['documented_place']}
         unlisted = [t for c, t in x['problems'] if c == 'unlisted']
         if unlisted:
             stats['failing'] += 1
@@ -725,8 +742,9 @@ def run(rep):
         'process_sequences': seqstats,
         'process_sequences_rule': 'real binary under the shim: every single action, every ordered pair of distinct actions and a sample of the '
                                   'triples (thorough: all triples, sampled quadruples) from {move A, flag new, flag !new, flags "F", label, '
-                                  'add-header, exec, exec stdin, discard (alone or after a pass)}, message in new and in cur, as one rule and as two '
-                                  'rules joined by pass, between a rule that does not match and a rule that would (first match wins), with a second '
+                                  'add-header, exec, exec stdin, discard (alone or after a pass)}, message in new and in cur, as one rule, as two '
+                                  'rules joined by pass, and (a sample) with the first rule in a nested block and a `break` before / between / after '
+                                  'its actions, between a rule that does not match and a rule that would (first match wins), with a second '
                                   'message no rule matches.  Judged against the documented meaning: exit 0; the message exactly once at Spec.dest '
                                   '(driver `S dest`; sequences outside Spec.destOK = known finding F12 of C09 are not generated), flags = old '
                                   '+/- S + F, content = original + X-Label / X-Added iff such an action was selected, modification time kept '
@@ -761,7 +779,7 @@ def replay(rep, path):
         if j['family'] == 'sequence':
             sub, seq, split = j['source_subdir'], tuple(j['actions']), j['pass_after']
             exdev = bool(j.get('dstA_on_other_device'))
-            spec = seq_spec(sub, seq, split, exdev)
+            spec = seq_spec(sub, seq, split, exdev, j.get('break_at'))
             scen = spec.build(tools)
             r = scen.run()
             probs = judge_seq(sub, seq, j['documented_place'], scen, r, exdev)
